@@ -185,7 +185,7 @@ def build():
            note='call-site view inside the reverse pass: only WHICH pairs are folded matters there; what a fold copies is '
                 'verified by the two _copy_change_attrs contracts')
     w.contract(
-        'AppMutator._get_mutation_id', module=APPMUT, serves=['C03', 'C12'],
+        'AppMutator._get_mutation_id', module=APPMUT, serves=['C03', 'C12', 'C02'],
         params={'self': K.Ref('AppMutator'), 'mutation': MUT, 'field_name': K.Opt(K.Str)},
         defaults={'field_name': None}, returns=ID, pure=True, reads=(),
         requires=["(field_name is not None and some(field_name) != '') or dtype_is(mutation, 'AddField') or dtype_is(mutation, 'ChangeField') or "
@@ -199,7 +199,7 @@ def build():
         params={'self': K.Ref('AppMutator'), 'd': None, 'old_key': None, 'new_key': None},
         note='analysed inline at each call site (it is used on four differently typed dicts)')
     w.contract(
-        'AppMutator._process_mutation_batch', module=APPMUT, serves=['C03', 'C01', 'C12'],
+        'AppMutator._process_mutation_batch', module=APPMUT, serves=['C03', 'C01', 'C12', 'C02'],
         params={'self': K.Ref('AppMutator'), 'mutation_batch': K.Tuple(K.Bool, K.Seq(MUT))},
         returns=None,
         requires=[
